@@ -1102,6 +1102,10 @@ func runCase(r *h.Run, c caseT) {
 		runCapacity(r, c)
 	case "async":
 		runAsync(r, c)
+	case "async-backlog":
+		runAsyncBacklog(r, c)
+	case "fork-burst":
+		runForkBurst(r, c)
 	}
 }
 
@@ -1138,8 +1142,10 @@ func main() {
 		return
 	}
 	nPool, nCap, nAsync := r.N(96, 2400), r.N(24, 360), r.N(800, 30000)
+	nBacklog, nBurst := r.N(16, 240), r.N(16, 240)
 	if r.Phase == "race" {
 		nPool, nCap, nAsync = r.N(24, 400), 0, r.N(160, 3200)
+		nBacklog, nBurst = 4, 0
 	}
 	if r.Shard == 0 {
 		agreed, illegal, unknown, dis := hist.SelfTest(r.Rand("c19/selftest", 0), r.N(80, 1500), 9, 100*time.Millisecond)
@@ -1154,7 +1160,7 @@ func main() {
 	for _, k := range []struct {
 		kind string
 		n    int
-	}{{"capacity", nCap}, {"pool", nPool}, {"async", nAsync}} {
+	}{{"capacity", nCap}, {"pool", nPool}, {"async", nAsync}, {"async-backlog", nBacklog}, {"fork-burst", nBurst}} {
 		for i := 0; i < k.n; i++ {
 			idx++
 			if !r.Mine(idx) || (*only != "" && *only != k.kind) {
@@ -1165,6 +1171,10 @@ func main() {
 					r.Inconclusive(fmt.Sprintf("watchdogs fired in %d cases of this process: the remaining cases (from %s %d) were skipped", watchdogsFired.Load(), k.kind, i))
 					watchdogsFired.Store(1000)
 				}
+				continue
+			}
+			if k.kind == "async-backlog" || k.kind == "fork-burst" {
+				runCase(r, genExtra(r, k.kind, i))
 				continue
 			}
 			runCase(r, genCase(r, k.kind, i))
